@@ -1,7 +1,7 @@
 (** C20 -- the property statements about the flavour conversions, proved from the closed forms. *)
 From Coq Require Import Ascii String List Bool Arith ZArith Lia.
 From PTBase Require Import Exn PyStr.
-From P Require Import Lang Convert SectionLemmas MopLemmas ConvertLemmas.
+From P Require Import Lang Convert SectionLemmas SectionOrder MopLemmas ConvertLemmas.
 From Gen Require Import GenConvert.
 Import ListNotations.
 
@@ -67,10 +67,10 @@ Definition t2_preserved (d d' : data) : Prop :=
 Lemma to_tough2_inv mp d d' : convert_to_TOUGH2 mp d = Ok d' ->
   exists st hg, solver_type_t2 d = Ok st /\
     t2_hist_gen d (fst (gens_loop (genlist d) (heap d))) (snd (snd (gens_loop (genlist d) (heap d)))) = Ok hg /\
-    let r := run_prog (t2_ctx mp st) mop_prog_t2 (options d, 0) in
+    let r := run_prog (t2_ctx mp st (t2_sim d)) mop_prog_t2 (options d, 0) in
     let gl := gens_loop (genlist d) (heap d) in
     d' = {| simulator := []; filename := if mp then s2l mp_filename else filename d;
-            sections := remove_first (s2l t2_lineq_section) (remove_first (s2l simul_section) (sections d));
+            sections := t2_sections (sections d);
             other_present := other_present d; multi := multi_to_tough2 (multi d); lineq := []; solver := solver d;
             options := fst r; heap := fst gl; genlist := snd (snd gl); gendict := dict_of_gens (fst gl) (snd (snd gl));
             short_output := short_empty;
@@ -127,17 +127,33 @@ Proof.
 Qed.
 
 (** with a duplicate-free section list the keywords are gone from the internal list as well *)
-Theorem to_tough2_sections_lemma mp d d' : convert_to_TOUGH2 mp d = Ok d' -> NoDup (sections d) ->
-  ~ In kw_simul (sections d') /\ ~ In kw_lineq (sections d') /\
-  (forall k, k <> kw_simul -> k <> kw_lineq -> (In k (sections d') <-> In k (sections d))).
+Lemma remove_two a b secs : NoDup secs ->
+  ~ In a (remove_first b (remove_first a secs)) /\ ~ In b (remove_first b (remove_first a secs)) /\
+  (forall k, k <> a -> k <> b -> (In k (remove_first b (remove_first a secs)) <-> In k secs)).
 Proof.
-  intros H ND. destruct (to_tough2_inv _ _ _ H) as (st & hg & _ & _ & E). cbv zeta in E.
-  destruct keyword_facts as (Ks & Kl & _). subst d'. fld. rewrite Ks, Kl. split; [|split].
+  intro ND. split; [|split].
   - intro I. apply In_remove_first in I. revert I. apply remove_first_nodup. exact ND.
   - apply remove_first_nodup. apply remove_first_NoDup. exact ND.
   - intros k N1 N2. split.
     + intro I. apply In_remove_first in I. apply In_remove_first in I. exact I.
     + intro I. apply remove_first_other; [exact N2|]. apply remove_first_other; [exact N1|exact I].
+Qed.
+Lemma t2_sections_spec secs : NoDup secs ->
+  ~ In kw_simul (t2_sections secs) /\ ~ In kw_lineq (t2_sections secs) /\
+  (forall k, k <> kw_simul -> k <> kw_lineq -> (In k (t2_sections secs) <-> In k secs)).
+Proof.
+  intro ND. destruct keyword_facts as (Ks & Kl & _). unfold t2_sections. rewrite Ks, Kl.
+  destruct t2_clears_simulator_first.
+  - apply remove_two. exact ND.
+  - destruct (remove_two kw_lineq kw_simul secs ND) as (A & B & C). split; [exact B|split; [exact A|]].
+    intros k N1 N2. apply C; assumption.
+Qed.
+Theorem to_tough2_sections_lemma mp d d' : convert_to_TOUGH2 mp d = Ok d' -> NoDup (sections d) ->
+  ~ In kw_simul (sections d') /\ ~ In kw_lineq (sections d') /\
+  (forall k, k <> kw_simul -> k <> kw_lineq -> (In k (sections d') <-> In k (sections d))).
+Proof.
+  intros H ND. destruct (to_tough2_inv _ _ _ H) as (st & hg & _ & _ & E). cbv zeta in E.
+  subst d'. fld. apply t2_sections_spec. exact ND.
 Qed.
 
 Theorem to_tough2_preserves_lemma mp d d' : convert_to_TOUGH2 mp d = Ok d' -> t2_preserved d d'.
@@ -145,8 +161,8 @@ Proof.
   intro H. destruct (to_tough2_inv _ _ _ H) as (st & hg & _ & Hg & E). cbv zeta in E.
   destruct (gens_loop_spec (genlist d) (heap d)) as (Hk & _ & _ & Hh).
   unfold t2_preserved. subst d'. fld. repeat split.
-  - exists (snd (run_prog (t2_ctx mp st) mop_prog_t2 (options d, 0))). split; [|reflexivity].
-    pose proof (run_prog_resc (t2_ctx mp st) mop_prog_t2 (options d, 0)) as R. cbn [snd] in R.
+  - exists (snd (run_prog (t2_ctx mp st (t2_sim d)) mop_prog_t2 (options d, 0))). split; [|reflexivity].
+    pose proof (run_prog_resc (t2_ctx mp st (t2_sim d)) mop_prog_t2 (options d, 0)) as R. cbn [snd] in R.
     pose proof t2_rescales_at_most_twice. lia.
   - exact Hk.
   - intros id I. rewrite Hh. rewrite (proj2 (nmem_In _ _) I). reflexivity.
@@ -161,7 +177,7 @@ Proof.
         subst it. f_equal. rewrite Hh. rewrite Hk in K. apply filter_In in K as [K _]. rewrite (proj2 (nmem_In _ _) K). first [apply (proj1 (convg_rest _))|symmetry; apply (proj1 (convg_rest _))].
     + inversion Hg. reflexivity.
   - apply run_prog_length.
-  - intros k N. apply (run_prog_unwritten (t2_ctx mp st) k mop_prog_t2 (options d, 0) N).
+  - intros k N. apply (run_prog_unwritten (t2_ctx mp st (t2_sim d)) k mop_prog_t2 (options d, 0) N).
 Qed.
 
 (** option digits stay digits: every constant the regenerated program stores is a digit, and so is the solver type
@@ -332,4 +348,72 @@ Theorem reported_deleted_lemma d :
 Proof.
   unfold gens_to_tough2. destruct (gens_loop_spec (genlist d) (heap d)) as (_ & Hd & _).
   destruct (gens_loop (genlist d) (heap d)) as [h' [del keep]]. cbn [fst snd] in *. exact Hd.
+Qed.
+
+(** * the order of the sections written after a conversion *)
+Definition kw_eleme := s2l "ELEME".   Definition kw_conne := s2l "CONNE".   Definition kw_gener := s2l "GENER".
+Definition rk (k : str) : nat := match srank k with Some n => n | None => 0 end.
+Definition has_rank (k : str) : bool := match srank k with Some _ => true | None => false end.
+Lemma section_rank_facts :
+  forallb has_rank [kw_eleme; kw_conne; kw_gener; kw_short; kw_foft; kw_coft; kw_goft] = true /\
+  rk kw_eleme < rk kw_conne /\ rk kw_conne < rk kw_gener /\ rk kw_gener < rk kw_short /\
+  rk kw_short < rk kw_foft /\ rk kw_foft < rk kw_coft /\ rk kw_coft < rk kw_goft.
+Proof. vm_compute. repeat split; repeat constructor. Qed.
+Lemma srank_rk k : has_rank k = true -> srank k = Some (rk k).
+Proof. unfold has_rank, rk. destruct (srank k); [reflexivity|discriminate]. Qed.
+
+(** both conversions keep, for every n, the keywords of rank <= n in reference order *)
+Theorem to_autough2_keeps_order_lemma n mp sim eos d d' : convert_to_AUTOUGH2 mp sim eos d = Ok d' ->
+  sorted_upto n (sections d) -> sorted_upto n (sections d') /\ sorted_upto n (written_sections d').
+Proof.
+  intros H PS. destruct (to_autough2_inv _ _ _ _ _ H) as (st & _ & E). cbv zeta in E.
+  assert (S1 : sorted_upto n (sections d')) by (subst d'; fld; apply ins_sec_keeps_order; apply ins_sec_keeps_order; exact PS).
+  split; [exact S1|apply update_sections_keeps_order_lemma; exact S1].
+Qed.
+Theorem to_tough2_keeps_order_lemma n mp d d' : convert_to_TOUGH2 mp d = Ok d' ->
+  sorted_upto n (sections d) -> sorted_upto n (sections d') /\ sorted_upto n (written_sections d').
+Proof.
+  intros H PS. destruct (to_tough2_inv _ _ _ H) as (st & hg & _ & _ & E). cbv zeta in E.
+  assert (S1 : sorted_upto n (sections d')).
+  { subst d'. fld. unfold t2_sections. destruct t2_clears_simulator_first; apply remove_keeps_order; apply remove_keeps_order; exact PS. }
+  split; [exact S1|apply update_sections_keeps_order_lemma; exact S1].
+Qed.
+Definition grid_keywords : list str := [kw_eleme; kw_conne; kw_gener].
+Definition history_keywords : list str := [kw_foft; kw_coft; kw_goft].
+(** the SHORT section of a model converted to AUTOUGH2 is written after ELEME, CONNE and GENER (it is read back
+    against the grid and the generators), wherever the history sections were *)
+Theorem short_written_after_grid_lemma mp sim eos d d' x : convert_to_AUTOUGH2 mp sim eos d = Ok d' ->
+  sorted_upto (rk kw_short) (sections d) -> In x grid_keywords ->
+  In x (written_sections d') -> In kw_short (written_sections d') -> before x kw_short (written_sections d').
+Proof.
+  intros H PS Ix Wx Ws. destruct (to_autough2_keeps_order_lemma _ _ _ _ _ _ H PS) as [_ S2].
+  destruct section_rank_facts as (R & L1 & L2 & L3 & _). rewrite forallb_forall in R.
+  assert (Rs : srank kw_short = Some (rk kw_short)) by (apply srank_rk; apply R; cbn; auto 10).
+  assert (Rx : srank x = Some (rk x)) by (apply srank_rk; apply R; unfold grid_keywords in Ix; cbn in *; intuition).
+  apply (sorted_before _ _ _ _ _ _ S2 Wx Ws Rx Rs); [|lia].
+  unfold grid_keywords in Ix. cbn [In] in Ix. destruct Ix as [<-|[<-|[<-|[]]]]; lia.
+Qed.
+(** the FOFT / COFT / GOFT sections of a model converted to TOUGH2 are written after ELEME, CONNE and GENER *)
+Theorem history_written_after_grid_lemma mp d d' x h : convert_to_TOUGH2 mp d = Ok d' ->
+  sorted_upto (rk kw_goft) (sections d) -> In x grid_keywords -> In h history_keywords ->
+  In x (written_sections d') -> In h (written_sections d') -> before x h (written_sections d').
+Proof.
+  intros H PS Ix Ih Wx Wh. destruct (to_tough2_keeps_order_lemma _ _ _ _ H PS) as [_ S2].
+  destruct section_rank_facts as (R & L1 & L2 & L3 & L4 & L5 & L6). rewrite forallb_forall in R.
+  assert (Rh : srank h = Some (rk h)) by (apply srank_rk; apply R; unfold history_keywords in Ih; cbn in *; intuition).
+  assert (Rx : srank x = Some (rk x)) by (apply srank_rk; apply R; unfold grid_keywords in Ix; cbn in *; intuition).
+  unfold grid_keywords in Ix. unfold history_keywords in Ih. cbn [In] in Ix, Ih.
+  apply (sorted_before _ _ _ _ _ _ S2 Wx Wh Rx Rh);
+    destruct Ix as [<-|[<-|[<-|[]]]]; destruct Ih as [<-|[<-|[<-|[]]]]; lia.
+Qed.
+
+(** * the MULKOM compatibility rescaling (MOP(23)) and the place where the simulator string is cleared *)
+Theorem to_tough2_rescales_as_parameters_lemma : t2_clears_simulator_first = false ->
+  forall mp d d', convert_to_TOUGH2 mp d = Ok d' ->
+  exists dp, params_to_tough2 mp d = Ok dp /\ rocks d' = rocks dp /\ options d' = options dp.
+Proof.
+  intros F mp d d' H. destruct (to_tough2_inv _ _ _ H) as (st & hg & Hs & _ & E). cbv zeta in E.
+  unfold params_to_tough2.
+  change (solver_type_t2 (set_multi (multi_to_tough2 (multi d)) d)) with (solver_type_t2 d). rewrite Hs. cbn [bind].
+  eexists. split; [reflexivity|]. subst d'. fld. unfold t2_sim, t2_ctx. rewrite F. split; reflexivity.
 Qed.
